@@ -161,8 +161,15 @@ def revert_rules(F, rep):
               "SessionPerspective::revert can return Ok without truncating the fact log to the checkpoint", site)
     clears = [c for c in f.calls if c.name == "clear" and overlay(c.args[0])]
     muts = [c for c in f.calls if c.name in MAP_MUTATORS and c.self_ty and "BTreeMap" in c.self_ty and overlay(c.args[0])]
+    # alternatively the installed map is a brand new one (BTreeMap::new() / default()), never derived from the old overlay
     fresh = False
-    ok = bool(clears) and all(any(f.dominates(k.bb, m.bb) for k in clears) for m in muts) and all(any(f.dominates(k.bb, s.bb) for k in clears) for s in late_oks)
+    for s in f.field_stores("current_facts"):
+        for o in s.operands():
+            if o.place is not None:
+                og = f.origins(o, through_calls=DER)
+                if "field:current_facts" not in og and ("call:new" in og or "call:default" in og) and not ({"call:get_mut", "call:make_mut", "call:take", "call:clone"} & og):
+                    fresh = True
+    ok = fresh or (bool(clears) and all(any(f.dominates(k.bb, m.bb) for k in clears) for m in muts) and all(any(f.dominates(k.bb, s.bb) for k in clears) for s in late_oks))
     rep.check(ok, "revert|overlay-rebuilt-from-empty", "K1 must-pass-through",
               "the overlay map is cleared before any other mutation of it, on every non-trivial path to Ok (%d mutating calls)" % len(muts),
               "SessionPerspective::revert edits the existing overlay instead of rebuilding it from empty: the log records only new values, so a slot overwritten by the reverted operation cannot be restored this way", site)
@@ -185,5 +192,5 @@ def revert_rules(F, rep):
               "SessionPerspective::revert does not replay the whole remaining fact log into the overlay", site)
     st = f.field_stores("current_facts")
     if st:
-        ok = all(any(f.dominates(k.bb, s.bb) for k in clears) for s in st) and all(any(f.dominates(s.bb, r.bb) for s in st) for r in late_oks)
+        ok = (fresh or all(any(f.dominates(k.bb, s.bb) for k in clears) for s in st)) and all(any(f.dominates(s.bb, r.bb) for s in st) for r in late_oks)
         rep.check(ok, "revert|overlay-installed", "K1 must-pass-through", "the rebuilt map is stored into current_facts before Ok", site=site)
